@@ -7,12 +7,15 @@
    every wire segment is INSIDE the model (URI.parse), so the statements hold however dots and slashes were spelled.
    Every theorem holds for ALL instantiations of the callees: charset decoder [valid], inet_pton [inet4] [inet6], the
    IDNA codec [idna_dec] [idna_enc], str.lower [lower], HeaderElement.parse up to the constructor [helem], Unicode
-   digits [udigits]; for all model variants [iv vq vu v7 vn] unless a theorem fixes one, and for every server
-   configuration (dscheme, dhost, dport).  414 cannot occur: MAX_URI_LENGTH is infinite (checked by T1). *)
+   digits [udigits]; for all model variants [iv vq vu v7 vn vl] unless a theorem fixes one, and for every server
+   configuration (dscheme, dhost, dport).  414 cannot occur: MAX_URI_LENGTH is infinite (checked by T1).
+   [vl] is the variant of finding D55 (what sanitize_request_uri_path hands to MOVED_PERMANENTLY): AsFound = the decoded path
+   text, parsed as a URI a second time; Repaired = a URI object carrying only the path.  T1 (LOCATION_VARIANT) records which
+   one the working tree implements; the correspondence runs the model with it. *)
 From Coq Require Import ZArith.
 From Httoop Require Import Lib.Bytes Lib.Variant Lib.Utf8 Gen.PercentT Gen.UriT Gen.UriNormT Gen.StartLineT Gen.ServerTargetT.
 From Httoop Require Import Model.Percent Model.StartLine Model.UriSyntax Model.UriPath Model.UriNorm Model.ServerTarget.
-From Httoop Require Import Proofs.ServerTarget.
+From Httoop Require Import Proofs.ServerTarget Proofs.ServerTargetRedirect.
 From Httoop Require Model.Parser Model.Headers Proofs.ParserFraming Proofs.ServerTargetParser.
 Local Open Scope N_scope.
 
@@ -20,9 +23,9 @@ Local Open Scope N_scope.
         /\ no interior segment is empty); a trailing empty segment ("/a/b/") is the directory form. ---- *)
 Theorem C06_path :
   forall (valid : bytes -> bool) (inet4 inet6 idna_dec idna_enc : bytes -> option bytes) (lower : bytes -> bytes)
-         (helem : bytes -> elres) (udigits : bytes -> option (option Z)) (iv vq vu v7 vn : variant)
+         (helem : bytes -> elres) (udigits : bytes -> option (option Z)) (iv vq vu v7 vn vl : variant)
          (dscheme dhost : bytes) (dport : option N) (line : bytes) (hostv : option bytes) (u : ruri) (m : bytes) (v : version),
-  request_head valid inet4 inet6 idna_dec idna_enc lower helem udigits iv vq vu v7 vn dscheme dhost dport line hostv = FDeliver u m v ->
+  request_head valid inet4 inet6 idna_dec idna_enc lower helem udigits iv vq vu v7 vn vl dscheme dhost dport line hostv = FDeliver u m v ->
   path_ok (UriNorm.u_path u).
 Proof. exact final_path. Qed.
 Print Assumptions C06_path.
@@ -35,10 +38,10 @@ Print Assumptions C06_path_ok_bool.
 (* ---- clause 3: scheme http or https (the configured default scheme must be one of them) ---- *)
 Theorem C06_scheme :
   forall (valid : bytes -> bool) (inet4 inet6 idna_dec idna_enc : bytes -> option bytes) (lower : bytes -> bytes)
-         (helem : bytes -> elres) (udigits : bytes -> option (option Z)) (iv vq vu v7 vn : variant)
+         (helem : bytes -> elres) (udigits : bytes -> option (option Z)) (iv vq vu v7 vn vl : variant)
          (dscheme dhost : bytes) (dport : option N) (line : bytes) (hostv : option bytes) (u : ruri) (m : bytes) (v : version),
   http_scheme dscheme = true ->
-  request_head valid inet4 inet6 idna_dec idna_enc lower helem udigits iv vq vu v7 vn dscheme dhost dport line hostv = FDeliver u m v ->
+  request_head valid inet4 inet6 idna_dec idna_enc lower helem udigits iv vq vu v7 vn vl dscheme dhost dport line hostv = FDeliver u m v ->
   UriNorm.u_scheme u = S_HTTP_ST \/ UriNorm.u_scheme u = S_HTTPS_ST.
 Proof. exact final_scheme. Qed.
 Print Assumptions C06_scheme.
@@ -46,9 +49,9 @@ Print Assumptions C06_scheme.
 (* ---- clause 4: no user information, no fragment ---- *)
 Theorem C06_no_userinfo_fragment :
   forall (valid : bytes -> bool) (inet4 inet6 idna_dec idna_enc : bytes -> option bytes) (lower : bytes -> bytes)
-         (helem : bytes -> elres) (udigits : bytes -> option (option Z)) (iv vq vu v7 vn : variant)
+         (helem : bytes -> elres) (udigits : bytes -> option (option Z)) (iv vq vu v7 vn vl : variant)
          (dscheme dhost : bytes) (dport : option N) (line : bytes) (hostv : option bytes) (u : ruri) (m : bytes) (v : version),
-  request_head valid inet4 inet6 idna_dec idna_enc lower helem udigits iv vq vu v7 vn dscheme dhost dport line hostv = FDeliver u m v ->
+  request_head valid inet4 inet6 idna_dec idna_enc lower helem udigits iv vq vu v7 vn vl dscheme dhost dport line hostv = FDeliver u m v ->
   UriNorm.u_user u = [] /\ UriNorm.u_pass u = [] /\ UriNorm.u_frag u = [].
 Proof. exact final_no_userinfo_fragment. Qed.
 Print Assumptions C06_no_userinfo_fragment.
@@ -59,9 +62,9 @@ Print Assumptions C06_no_userinfo_fragment.
    proved for every other port: *)
 Theorem C06_host_from_header :
   forall (valid : bytes -> bool) (inet4 inet6 idna_dec idna_enc : bytes -> option bytes) (lower : bytes -> bytes)
-         (helem : bytes -> elres) (udigits : bytes -> option (option Z)) (iv vq vu v7 vn : variant)
+         (helem : bytes -> elres) (udigits : bytes -> option (option Z)) (iv vq vu v7 vn vl : variant)
          (dscheme dhost : bytes) (dport : option N) (line raw : bytes) (u : ruri) (m : bytes) (v : version),
-  request_head valid inet4 inet6 idna_dec idna_enc lower helem udigits iv vq vu v7 vn dscheme dhost dport line (Some raw) = FDeliver u m v ->
+  request_head valid inet4 inet6 idna_dec idna_enc lower helem udigits iv vq vu v7 vn vl dscheme dhost dport line (Some raw) = FDeliver u m v ->
   exists text h pz,
     helem raw = ElValue text /\ host_sanitize inet4 inet6 lower udigits text = Some (h, pz) /\
     UriNorm.u_host u = h /\
@@ -81,10 +84,10 @@ Print Assumptions C06_host_port_zero_refuted.
 (* the "default port" above is the one of the delivered scheme's class (80 / 443) *)
 Theorem C06_class_port :
   forall (valid : bytes -> bool) (inet4 inet6 idna_dec idna_enc : bytes -> option bytes) (lower : bytes -> bytes)
-         (helem : bytes -> elres) (udigits : bytes -> option (option Z)) (iv vq vu v7 vn : variant)
+         (helem : bytes -> elres) (udigits : bytes -> option (option Z)) (iv vq vu v7 vn vl : variant)
          (dscheme dhost : bytes) (dport : option N) (line : bytes) (hostv : option bytes) (u : ruri) (m : bytes) (v : version),
   http_scheme dscheme = true ->
-  request_head valid inet4 inet6 idna_dec idna_enc lower helem udigits iv vq vu v7 vn dscheme dhost dport line hostv = FDeliver u m v ->
+  request_head valid inet4 inet6 idna_dec idna_enc lower helem udigits iv vq vu v7 vn vl dscheme dhost dport line hostv = FDeliver u m v ->
   u_dport u = class_port (UriNorm.u_scheme u).
 Proof. exact final_class_port. Qed.
 Print Assumptions C06_class_port.
@@ -107,11 +110,11 @@ Print Assumptions C06_host_syntax.
 (* ---- clause 5, Host absent: only below HTTP/1.1 ... ---- *)
 Theorem C06_host_absent :
   forall (valid : bytes -> bool) (inet4 inet6 idna_dec idna_enc : bytes -> option bytes) (lower : bytes -> bytes)
-         (helem : bytes -> elres) (udigits : bytes -> option (option Z)) (iv vq vu v7 vn : variant)
+         (helem : bytes -> elres) (udigits : bytes -> option (option Z)) (iv vq vu v7 vn vl : variant)
          (dscheme dhost : bytes) (dport : option N) (line : bytes) (u : ruri) (m : bytes) (v : version),
-  request_head valid inet4 inet6 idna_dec idna_enc lower helem udigits iv vq vu v7 vn dscheme dhost dport line None = FDeliver u m v ->
+  request_head valid inet4 inet6 idna_dec idna_enc lower helem udigits iv vq vu v7 vn vl dscheme dhost dport line None = FDeliver u m v ->
   ver_ltb v (1, 1) = true /\
-  server_target valid inet4 inet6 idna_dec idna_enc lower iv vq vu v7 vn dscheme dhost dport line = Deliver u m v.
+  server_target valid inet4 inet6 idna_dec idna_enc lower iv vq vu v7 vn vl dscheme dhost dport line = Deliver u m v.
 Proof. exact final_host_absent. Qed.
 Print Assumptions C06_host_absent.
 
@@ -120,10 +123,10 @@ Print Assumptions C06_host_absent.
    asterisk-form, authority-form).  The port is the configured one through the port setter (None / 0 = class default). *)
 Theorem C06_absent_host_defaults_partial :
   forall (valid : bytes -> bool) (inet4 inet6 idna_dec idna_enc : bytes -> option bytes) (lower : bytes -> bytes)
-         (helem : bytes -> elres) (udigits : bytes -> option (option Z)) (iv vq vu v7 vn : variant)
+         (helem : bytes -> elres) (udigits : bytes -> option (option Z)) (iv vq vu v7 vn vl : variant)
          (dscheme dhost : bytes) (dport : option N) (line : bytes) (u : ruri) (m : bytes) (v : version),
   lower [] = [] ->
-  request_head valid inet4 inet6 idna_dec idna_enc lower helem udigits iv vq vu v7 vn dscheme dhost dport line None = FDeliver u m v ->
+  request_head valid inet4 inet6 idna_dec idna_enc lower helem udigits iv vq vu v7 vn vl dscheme dhost dport line None = FDeliver u m v ->
   exists target u0,
     req_parse iv line = RqTarget m target v /\ target_parse valid inet4 inet6 idna_dec vq v7 target = Ok u0 /\
     (UriNorm.u_scheme u0 = [] ->
@@ -141,11 +144,12 @@ Print Assumptions C06_absent_host_defaults_refuted.
 (* ---- clause 2: what happens otherwise.  On the working tree's variants (D40 and D7 repaired: checked by C06_tables)
    the start-line hooks end in: delivery, 400, 505 (version above the server's), or 301 whose target is the normalised
    path -- different from the decoded wire path, free of dot segments and slash runs, a fixed point of normalisation --
-   with Location = str(URI(that path)).  An exception escapes only when that Location cannot be IDNA-encoded. ---- *)
+   with Location = location_of vl (that path) (after the repair of D55: C06_redirect_location).  An exception escapes
+   only on the as-found tree, when the re-parsed Location cannot be IDNA-encoded. ---- *)
 Theorem C06_not_delivered_is_301_or_400 :
   forall (valid : bytes -> bool) (inet4 inet6 idna_dec idna_enc : bytes -> option bytes) (lower : bytes -> bytes)
-         (vq vu vn : variant) (dscheme dhost : bytes) (dport : option N) (line : bytes),
-  match server_target valid inet4 inet6 idna_dec idna_enc lower Repaired vq vu Repaired vn dscheme dhost dport line with
+         (vq vu vn vl : variant) (dscheme dhost : bytes) (dport : option N) (line : bytes),
+  match server_target valid inet4 inet6 idna_dec idna_enc lower Repaired vq vu Repaired vn vl dscheme dhost dport line with
   | Deliver _ _ _ | Bad400 => True
   | V505 => exists m target v, req_parse Repaired line = RqTarget m target v /\ ver_ltb SERVER_PROTOCOL v = true
   | Redirect301 canon loc =>
@@ -154,8 +158,9 @@ Theorem C06_not_delivered_is_301_or_400 :
         canon = UriNorm.u_path (UriNorm.normalize lower vn u0) /\ canon <> UriNorm.u_path u0 /\
         no_dot_seg canon = true /\ no_dslash canon = true /\
         normalize_path (nonnil (lower (UriNorm.u_host u0))) (nonnil (lower (UriNorm.u_scheme u0))) canon = canon /\
-        location_of valid inet4 inet6 idna_dec idna_enc vq vu Repaired canon = Ok (Some loc)
+        location_of valid inet4 inet6 idna_dec idna_enc vq vu Repaired vl canon = Ok (Some loc)
   | Escape =>
+      vl = AsFound /\
       exists canon u, uri_parse valid inet4 inet6 idna_dec vq Repaired canon = Ok u /\ uri_compose idna_enc vq vu u = None
   end.
 Proof. exact final_other_outcomes. Qed.
@@ -163,20 +168,28 @@ Print Assumptions C06_not_delivered_is_301_or_400.
 
 Theorem C06_no_escape :
   forall (valid : bytes -> bool) (inet4 inet6 idna_dec idna_enc : bytes -> option bytes) (lower : bytes -> bytes)
-         (vq vu vn : variant) (dscheme dhost : bytes) (dport : option N) (line : bytes),
+         (vq vu vn vl : variant) (dscheme dhost : bytes) (dport : option N) (line : bytes),
   (forall h, idna_enc h <> None) ->
-  server_target valid inet4 inet6 idna_dec idna_enc lower Repaired vq vu Repaired vn dscheme dhost dport line <> Escape.
+  server_target valid inet4 inet6 idna_dec idna_enc lower Repaired vq vu Repaired vn vl dscheme dhost dport line <> Escape.
 Proof. exact final_no_escape. Qed.
 Print Assumptions C06_no_escape.
 
-(* Full statement: the 301 names the canonical path, i.e. path_ok canon and Location = canon.
-   False twice on the working tree: (D53) an origin-form path that climbs above the root loses its leading slash;
-   (D55) the Location is obtained by parsing the decoded path text as a URI again, so "%", "?", "#", ":" in a segment
-   are read a second time.  Proved for absolute-form targets: the normalised path is a sanitised path. *)
+(* ... and after the repair of D55 nothing escapes at all, whatever the callees do *)
+Theorem C06_no_escape_repaired :
+  forall (valid : bytes -> bool) (inet4 inet6 idna_dec idna_enc : bytes -> option bytes) (lower : bytes -> bytes)
+         (vq vu vn : variant) (dscheme dhost : bytes) (dport : option N) (line : bytes),
+  server_target valid inet4 inet6 idna_dec idna_enc lower Repaired vq vu Repaired vn Repaired dscheme dhost dport line <> Escape.
+Proof. exact final_no_escape_repaired. Qed.
+Print Assumptions C06_no_escape_repaired.
+
+(* Full statement: the 301 names the canonical path, i.e. path_ok canon and Location = the encoded canon.
+   (D53, still open) an origin-form path that climbs above the root loses its leading slash: path_ok canon is proved for
+   absolute-form targets only.  (D55, repaired) the Location was obtained by parsing the decoded path text as a URI again;
+   with vl = Repaired it is exactly the percent-encoded normalised path: C06_redirect_location. *)
 Theorem C06_redirect_rooted_partial :
   forall (valid : bytes -> bool) (inet4 inet6 idna_dec idna_enc : bytes -> option bytes) (lower : bytes -> bytes)
-         (vq vu vn : variant) (dscheme dhost : bytes) (dport : option N) (line canon loc : bytes) (m target : bytes) (v : version) (u0 : ruri),
-  server_target valid inet4 inet6 idna_dec idna_enc lower Repaired vq vu Repaired vn dscheme dhost dport line = Redirect301 canon loc ->
+         (vq vu vn vl : variant) (dscheme dhost : bytes) (dport : option N) (line canon loc : bytes) (m target : bytes) (v : version) (u0 : ruri),
+  server_target valid inet4 inet6 idna_dec idna_enc lower Repaired vq vu Repaired vn vl dscheme dhost dport line = Redirect301 canon loc ->
   req_parse Repaired line = RqTarget m target v ->
   target_parse valid inet4 inet6 idna_dec vq Repaired target = Ok u0 ->
   nonnil (lower (UriNorm.u_scheme u0)) = true -> nonnil (lower (UriNorm.u_host u0)) = true ->
@@ -189,8 +202,67 @@ Theorem C06_redirect_rooted_refuted :
 Proof. exact witness_redirect_not_rooted. Qed.
 Print Assumptions C06_redirect_rooted_refuted.
 
+(* D55 repaired: the Location of the 301 is the normalised (dot-free, slash-run-free) path percent-encoded the way URI.compose
+   writes a path -- encoded_path vq canon = "/".join(quote(segment, PATH)) -- whatever the path contains; nothing is parsed a
+   second time.  For every instantiation of the callees and of the other variants. *)
+Theorem C06_redirect_location :
+  forall (valid : bytes -> bool) (inet4 inet6 idna_dec idna_enc : bytes -> option bytes) (lower : bytes -> bytes)
+         (iv vq vu v7 vn : variant) (dscheme dhost : bytes) (dport : option N) (line canon loc : bytes),
+  server_target valid inet4 inet6 idna_dec idna_enc lower iv vq vu v7 vn Repaired dscheme dhost dport line = Redirect301 canon loc ->
+  loc = encoded_path vq canon /\ no_dot_seg canon = true /\ no_dslash canon = true /\
+  exists m target v u0, req_parse iv line = RqTarget m target v /\
+    target_parse valid inet4 inet6 idna_dec vq v7 target = Ok u0 /\
+    canon = UriNorm.u_path (UriNorm.normalize lower vn u0) /\ canon <> UriNorm.u_path u0.
+Proof. exact final_redirect_location. Qed.
+Print Assumptions C06_redirect_location.
+
+(* ... and the request a client sends when it follows that redirect -- any request line whose target is the Location, any
+   method but CONNECT -- is NOT redirected again: it is delivered with exactly the canonical (decoded) path, the configured
+   scheme and host and no query (or refused for its version / an unusable configured port).
+   Partial: the canonical path begins with "/" (else D53), contains no ":" (D49: URI.parse reads "/a:b" as scheme "/a" and the
+   follow-up request is refused, C06_redirect_follow_colon_refuted) and, on the pinned Percent.quote, no octet below 0x10 (D1: the
+   one-digit escape is not decoded, C06_redirect_follow_low_octet_refuted).
+   Callee hypotheses: the empty string is text and replacing "/" by "%2f" keeps a text a text (both proved for the UTF-8 decoder
+   model of Lib/Utf8.v: C06_example_followed_hypotheses); the IDNA decoder and str.lower map "" to "".  That every segment of the
+   canonical path is text is DERIVED from the first request (normalisation only drops, reorders and adds empty segments). *)
+Theorem C06_redirect_followed_partial :
+  forall (valid : bytes -> bool) (inet4 inet6 idna_dec idna_enc : bytes -> option bytes) (lower : bytes -> bytes)
+         (iv vq vu v7 vn : variant) (dscheme dhost : bytes) (dport : option N) (line canon loc : bytes),
+  valid [] = true -> (forall t, valid t = true -> valid (esc_slash t) = true) -> idna_dec [] = Some [] -> lower [] = [] ->
+  server_target valid inet4 inet6 idna_dec idna_enc lower iv vq vu v7 vn Repaired dscheme dhost dport line = Redirect301 canon loc ->
+  starts_slash canon = true ->
+  contains UriSyntax.COLON canon = false ->
+  Httoop.Proofs.UriSyntax.nl vq canon = true ->
+  forall (line' m : bytes) (v : version),
+  req_parse iv line' = RqTarget m loc v -> bytes_eqb m CONNECT = false ->
+  match server_target valid inet4 inet6 idna_dec idna_enc lower iv vq vu v7 vn Repaired dscheme dhost dport line' with
+  | Deliver u m' v' =>
+      m' = m /\ v' = v /\ UriNorm.u_path u = canon /\ UriNorm.u_scheme u = dscheme /\ UriNorm.u_host u = dhost /\
+      UriNorm.u_query u = [] /\ UriNorm.u_user u = [] /\ UriNorm.u_pass u = [] /\ UriNorm.u_frag u = []
+  | V505 => ver_ltb SERVER_PROTOCOL v = true
+  | Bad400 => exists q, dport = Some q /\ 65535 < q
+  | Redirect301 _ _ | Escape => False
+  end.
+Proof. exact final_redirect_followed. Qed.
+Print Assumptions C06_redirect_followed_partial.
+
+Theorem C06_redirect_follow_colon_refuted :     (* GET /x/../a%3Ab -> 301 Location /a:b ; GET /a:b -> 400 *)
+  ex_target (X "474554202f782f2e2e2f612533416220485454502f312e31") = Redirect301 (X "2f613a62") (X "2f613a62") /\
+  ex_target (X "474554202f613a6220485454502f312e31") = Bad400.
+Proof. exact witness_follow_colon. Qed.
+Print Assumptions C06_redirect_follow_colon_refuted.
+
+Theorem C06_redirect_follow_low_octet_refuted : (* GET /x/../%01 -> 301 Location /%1 ; GET /%1 -> delivered with the segment "%1" *)
+  ex_target (X "474554202f782f2e2e2f25303120485454502f312e31") = Redirect301 (X "2f01") (X "2f2531") /\
+  exists u, ex_target (X "474554202f253120485454502f312e31") = Deliver u (X "474554") (1, 1) /\
+            UriNorm.u_path u = X "2f2531" /\ UriNorm.u_path u <> X "2f01".
+Proof. exact witness_follow_low_octet. Qed.
+Print Assumptions C06_redirect_follow_low_octet_refuted.
+
+(* the behaviour before the repair (vl = AsFound), kept as a refutation of the as-found model: "GET /x/../%2561" was redirected
+   to "/a" although the canonical path is "/%61" *)
 Theorem C06_redirect_location_refuted :
-  exists canon loc, ex_target (X "474554202f782f2e2e2f253235363120485454502f312e31") = Redirect301 canon loc /\
+  exists canon loc, ex_target_asfound (X "474554202f782f2e2e2f253235363120485454502f312e31") = Redirect301 canon loc /\
     canon = X "2f253631" /\ loc = X "2f61" /\ unquote loc <> canon.
 Proof. exact witness_redirect_reparsed. Qed.
 Print Assumptions C06_redirect_location_refuted.
@@ -223,6 +295,20 @@ Example C06_example_redirect :  (* GET /a/%2e%2E/b//c/./%2fd?q HTTP/1.1 -> 301, 
   ex_target (X "474554202f612f2532652532452f622f2f632f2e2f253266643f7120485454502f312e31")
   = Redirect301 (X "2f622f632f25326664") (X "2f622f632f253235326664").
 Proof. exact ex_redirect. Qed.
+Example C06_example_redirect_repaired :  (* GET /x/../%2561 -> 301 Location /%2561 (canonical path /%61); GET /%2561 is delivered with /%61 *)
+  ex_target (X "474554202f782f2e2e2f253235363120485454502f312e31") = Redirect301 (X "2f253631") (X "2f2532353631") /\
+  exists u, ex_target (X "474554202f253235363120485454502f312e31") = Deliver u (X "474554") (1, 1) /\ UriNorm.u_path u = X "2f253631".
+Proof. exact ex_redirect_repaired. Qed.
+Example C06_example_redirect_delims :    (* GET /x/../a%3Fb%23%C3%A4%20c -> 301 Location /a%3Fb%23%C3%A4%20c, followed: same path *)
+  ex_target (X "474554202f782f2e2e2f61253346622532332543332541342532306320485454502f312e31")
+  = Redirect301 (X "2f613f6223c3a42063") (X "2f612533466225323325433325413425323063") /\
+  exists u, ex_target (X "474554202f61253346622532332543332541342532306320485454502f312e31") = Deliver u (X "474554") (1, 1) /\
+            UriNorm.u_path u = X "2f613f6223c3a42063".
+Proof. exact ex_redirect_delims. Qed.
+Example C06_example_followed_hypotheses :
+  utf8_valid [] = true /\ (forall t, utf8_valid t = true -> utf8_valid (esc_slash t) = true) /\ ex_id [] = Some [] /\ lower_ascii [] = [] /\
+  starts_slash (X "2f253631") = true /\ contains UriSyntax.COLON (X "2f253631") = false /\ Httoop.Proofs.UriSyntax.nl AsFound (X "2f253631") = true.
+Proof. exact ex_followed_hypotheses. Qed.
 Example C06_example_hypotheses : lower_ascii [] = [] /\ http_scheme S_HTTP_ST = true /\ (forall h, ex_id h <> None).
 Proof. exact ex_hypotheses. Qed.
 
@@ -234,15 +320,15 @@ Proof. exact ex_hypotheses. Qed.
 Theorem C06_delivered_uri :
   forall (cfg : Parser.config) (C : Parser.callees)
          (valid : bytes -> bool) (inet4 inet6 idna_dec idna_enc : bytes -> option bytes) (lower : bytes -> bytes)
-         (helem : bytes -> elres) (udigits : bytes -> option (option Z)) (iv vq vu v7 vn : variant)
+         (helem : bytes -> elres) (udigits : bytes -> option (option Z)) (iv vq vu v7 vn vl : variant)
          (dscheme dhost : bytes) (dport : option N) (frags : list bytes),
-  ServerTargetParser.start_tied C valid inet4 inet6 idna_dec idna_enc lower iv vq vu v7 vn dscheme dhost dport ->
+  ServerTargetParser.start_tied C valid inet4 inet6 idna_dec idna_enc lower iv vq vu v7 vn vl dscheme dhost dport ->
   ServerTargetParser.hdrs_tied C inet4 inet6 lower helem udigits ->
   http_scheme dscheme = true ->
   match ParserFraming.feed cfg C Parser.Server Parser.init frags with
   | (_, ms, _) =>
       Forall (fun m => exists h0 u mm v,
-                request_head valid inet4 inet6 idna_dec idna_enc lower helem udigits iv vq vu v7 vn dscheme dhost dport
+                request_head valid inet4 inet6 idna_dec idna_enc lower helem udigits iv vq vu v7 vn vl dscheme dhost dport
                              (Parser.m_line m) (Headers.hget Parser.K_HOST h0) = FDeliver u mm v /\ ServerTargetParser.uri_ok u) ms
   end.
 Proof. exact ServerTargetParser.delivered_uri. Qed.
@@ -251,10 +337,10 @@ Print Assumptions C06_delivered_uri.
 (* the two hypotheses are satisfiable: any callee record with the model plugged in *)
 Theorem C06_plug_tied :
   forall (C : Parser.callees) (valid : bytes -> bool) (inet4 inet6 idna_dec idna_enc : bytes -> option bytes) (lower : bytes -> bytes)
-         (helem : bytes -> elres) (udigits : bytes -> option (option Z)) (iv vq vu v7 vn : variant)
+         (helem : bytes -> elres) (udigits : bytes -> option (option Z)) (iv vq vu v7 vn vl : variant)
          (dscheme dhost : bytes) (dport : option N),
-  let P := ServerTargetParser.plug C valid inet4 inet6 idna_dec idna_enc lower helem udigits iv vq vu v7 vn dscheme dhost dport in
-  ServerTargetParser.start_tied P valid inet4 inet6 idna_dec idna_enc lower iv vq vu v7 vn dscheme dhost dport /\
+  let P := ServerTargetParser.plug C valid inet4 inet6 idna_dec idna_enc lower helem udigits iv vq vu v7 vn vl dscheme dhost dport in
+  ServerTargetParser.start_tied P valid inet4 inet6 idna_dec idna_enc lower iv vq vu v7 vn vl dscheme dhost dport /\
   ServerTargetParser.hdrs_tied P inet4 inet6 lower helem udigits.
 Proof. exact ServerTargetParser.plug_tied. Qed.
 Print Assumptions C06_plug_tied.
